@@ -234,17 +234,59 @@ func (e *Engine) setupIntrinsics() {
 	}
 	n[p+"vpLog"] = func(e *Engine, st *State, fn *ssa.Function, a []Value) Value {
 		f := a[0].(FloatV)
-		if f.Sym != nil {
-			panic(unsupported("Log of symbolic float"))
+		if f.isConc() {
+			return concFloat(math.Log(f.F))
 		}
-		return concFloat(math.Log(f.F))
+		// math.Log of a symbolic float64: an uninterpreted function that is
+		// only known to be a logarithm by its contract - NaN for NaN and
+		// negative arguments, -Inf at 0, 0 at 1, +Inf at +Inf, otherwise
+		// finite, negative below 1, positive above 1, and monotone
+		// non-decreasing. (Go's software logarithm is assumed, not shown, to
+		// be monotone.)
+		effect(st, "math.Log")
+		x := f.asFP()
+		res := e.ackermannT(st, "math.Log", x)
+		return FloatV{FP: res}
+	}
+	n[p+"vpFloat64"] = func(e *Engine, st *State, fn *ssa.Function, a []Value) Value {
+		name := argStr(a[0])
+		t := Var(name, BV(64))
+		e.declInput(name, t, "float64 (IEEE bits)")
+		return FloatV{FP: FFromBits(t)}
 	}
 
 	// --- library intrinsics -------------------------------------------------
 	n["math.Log"] = n[p+"vpLog"]
+	// reflect: only object identity (reflect.ValueOf(x).Pointer()), used by
+	// code that recognises "the same map / pointer as last time"
+	n["reflect.ValueOf"] = func(e *Engine, st *State, fn *ssa.Function, a []Value) Value {
+		return &StructV{F: []Value{a[0]}}
+	}
+	n["(reflect.Value).Pointer"] = func(e *Engine, st *State, fn *ssa.Function, a []Value) Value {
+		sv, ok := a[0].(*StructV)
+		if !ok || len(sv.F) != 1 {
+			panic(unsupported("reflect.Value not made by reflect.ValueOf"))
+		}
+		iv, ok := sv.F[0].(IfaceV)
+		if !ok {
+			panic(unsupported("reflect.Value.Pointer of a non-interface"))
+		}
+		switch v := iv.V.(type) {
+		case MapV:
+			return BVC(64, uint64(v.Obj)<<16)
+		case PtrV:
+			if len(v.Path) == 0 {
+				return BVC(64, uint64(v.Obj)<<16)
+			}
+		}
+		panic(unsupported("reflect.Value.Pointer of this kind of value"))
+	}
 	n["math.Float64bits"] = func(e *Engine, st *State, fn *ssa.Function, a []Value) Value {
 		f := a[0].(FloatV)
-		if f.Sym != nil {
+		if f.FP != nil && f.FP.Op == OFFromBits {
+			return f.FP.Args[0]
+		}
+		if !f.isConc() {
 			panic(unsupported("Float64bits of symbolic float"))
 		}
 		return BVC(64, math.Float64bits(f.F))
@@ -252,14 +294,14 @@ func (e *Engine) setupIntrinsics() {
 	n["math.Float64frombits"] = func(e *Engine, st *State, fn *ssa.Function, a []Value) Value {
 		t := a[0].(*Term)
 		if !t.IsConst() {
-			panic(unsupported("Float64frombits of symbolic bits"))
+			return FloatV{FP: FFromBits(t)}
 		}
 		return concFloat(math.Float64frombits(t.U))
 	}
 	minmax := func(isMin bool) nativeImpl {
 		return func(e *Engine, st *State, fn *ssa.Function, a []Value) Value {
 			x, y := a[0].(FloatV), a[1].(FloatV)
-			if x.Sym != nil || y.Sym != nil {
+			if !x.isConc() || !y.isConc() {
 				panic(unsupported("math.Min/Max of symbolic floats"))
 			}
 			if isMin {
@@ -272,6 +314,9 @@ func (e *Engine) setupIntrinsics() {
 	n["math.Max"] = minmax(false)
 	n["math.IsNaN"] = func(e *Engine, st *State, fn *ssa.Function, a []Value) Value {
 		f := a[0].(FloatV)
+		if f.FP != nil {
+			return FIsNaN(f.FP)
+		}
 		if f.Sym != nil {
 			return FalseT
 		}
@@ -279,6 +324,17 @@ func (e *Engine) setupIntrinsics() {
 	}
 	n["math.IsInf"] = func(e *Engine, st *State, fn *ssa.Function, a []Value) Value {
 		f := a[0].(FloatV)
+		if f.FP != nil {
+			sign := argInt(a[1])
+			pinf, ninf := FEq(f.FP, FPC(math.Inf(1))), FEq(f.FP, FPC(math.Inf(-1)))
+			switch {
+			case sign > 0:
+				return pinf
+			case sign < 0:
+				return ninf
+			}
+			return Or(pinf, ninf)
+		}
 		if f.Sym != nil {
 			return FalseT
 		}
@@ -427,6 +483,18 @@ func (e *Engine) setupIntrinsics() {
 		"os.Open":                          "vpOsOpen",
 		"(*os.File).Read":                  "vpFileRead",
 		"(*os.File).Close":                 "vpFileClose",
+		"(*sync.Mutex).Lock":               "vpMutexLock",
+		"(*sync.Mutex).Unlock":             "vpMutexUnlock",
+		"(*sync.Mutex).TryLock":            "vpMutexTryLock",
+		"(*sync.RWMutex).Lock":             "vpRWLock",
+		"(*sync.RWMutex).Unlock":           "vpRWUnlock",
+		"(*sync.RWMutex).RLock":            "vpRWRLock",
+		"(*sync.RWMutex).RUnlock":          "vpRWRUnlock",
+		"(*sync.Once).Do":                  "vpOnceDo",
+		"(*sync.Pool).Get":                 "vpPoolGet",
+		"(*sync.Pool).Put":                 "vpPoolPut",
+		"encoding/json.Marshal":            "vpJSONMarshal",
+		"encoding/json.Unmarshal":          "vpJSONUnmarshal",
 		"compress/gzip.NewReader":          "vpGzipNewReader",
 		"(*compress/gzip.Reader).Read":     "vpGzipRead",
 		"github.com/spaolacci/murmur3.New64WithSeed": "vpNewHash64",
@@ -554,6 +622,47 @@ func (e *Engine) ackermann(st *State, fname string, args []*Term, s Sort) *Term 
 		st.Assumed = append(st.Assumed, ax)
 	}
 	st.Ack[key] = append(st.Ack[key], ackApp{args: args, res: res})
+	return res
+}
+
+// ackermannT: math.Log as an uninterpreted function with its contract.
+func (e *Engine) ackermannT(st *State, fname string, x *Term) *Term {
+	key := fname + "/fp"
+	if st.Ack == nil {
+		st.Ack = map[string][]ackApp{}
+	}
+	for _, a := range st.Ack[key] {
+		if a.args[0] == x {
+			return a.res
+		}
+	}
+	name := fmt.Sprintf("%s.%d", key, x.ID)
+	bits := Var(name, BV(64))
+	e.declInput(name, bits, "uf")
+	res := FFromBits(bits)
+	zero, one := FPC(0), FPC(1)
+	pinf, ninf := FPC(math.Inf(1)), FPC(math.Inf(-1))
+	assume := func(ax *Term) {
+		st.Assume(ax)
+		st.Assumed = append(st.Assumed, ax)
+	}
+	imp := func(p, q *Term) *Term { return Or(Not(p), q) }
+	bad := Or(FIsNaN(x), FLt(x, zero))
+	assume(Eq(bad, FIsNaN(res)))              // NaN exactly for NaN and negative arguments
+	assume(imp(FEq(x, zero), FEq(res, ninf))) // Log(+-0) = -Inf
+	assume(imp(FEq(res, ninf), FEq(x, zero)))
+	assume(imp(FEq(x, one), FEq(res, zero)))
+	assume(imp(FEq(x, pinf), FEq(res, pinf)))
+	assume(imp(FEq(res, pinf), FEq(x, pinf)))
+	assume(imp(And(FLt(zero, x), FLt(x, one)), FLt(res, zero)))
+	assume(imp(FLt(one, x), FLt(zero, res)))
+	// monotone (and thereby functional) with every earlier application
+	for _, a := range st.Ack[key] {
+		y, ry := a.args[0], a.res
+		assume(imp(And(FLe(zero, x), FLe(x, y)), FLe(res, ry)))
+		assume(imp(And(FLe(zero, y), FLe(y, x)), FLe(ry, res)))
+	}
+	st.Ack[key] = append(st.Ack[key], ackApp{args: []*Term{x}, res: res})
 	return res
 }
 
